@@ -4,7 +4,7 @@ property text (MediaWiki transclusion rules)."""
 import re
 from lib import cstr, cN, clist, cbool, copt
 
-TEXT_ATOMS = ["x", "y", "Zq", " ", "  ", "\n", "a b", "w ", " v", "0", "12", "é", "\nfoo", "bar\n", "-", ".", "*s", ":i", "#n", "m;"]
+TEXT_ATOMS = ["x", "y", "Zq", " ", "  ", "\n", "a b", "w ", " v", "0", "12", "é", "\nfoo", "bar\n", "-", ".", "*s", ":i", "#n", "m;", "q=r"]
 NAMES = ["t0", "t1", "T2", "t3", "t 4"]
 STORED = {"t0": "T0", "t1": "t1", "T2": "T2", "t3": "T3", "t 4": "T 4"}     # how each is stored (first letter cases)
 PARAM_KEYS = ["1", "2", "3", "k", "Key two", "07"]
@@ -205,11 +205,16 @@ class Ref:
     """Environment-based evaluation; `kludge` reproduces the known trailing-newline deviation (finding C04/#22)."""
 
     def __init__(self, lib, kludge=False, depth_limit=40, trim_first=None, switch_default_wins=False,
-                 opts=None, leak=False):
+                 opts=None, leak=False, resplit=None):
         # leak: variant describing a known deviation -- the calls inside the arguments of an unexpanded parser
         # function stay placeholders; when such an argument value is substituted into a template body they are
         # expanded there (late), otherwise they are printed as written
         self.leak = leak
+        # resplit: variant describing a known deviation -- a parameter value is substituted into the arguments of the
+        # calls of a template body BEFORE they are split at '=', so a value containing '=' turns a positional argument
+        # into a named one
+        self.resplit = leak if resplit is None else resplit
+        self._top = None          # written name of the template whose body is being scanned at its top level
         self.deferred = []
         self.lib = {}
         for name, body, pre in lib:
@@ -296,7 +301,19 @@ class Ref:
         if k in env:
             v = env[k]
             if self.leak and "\1" in v:
-                v = re.sub("\1(\\d+)\1", lambda m: self.ev([self.deferred[int(m.group(1))]], None, depth, False), v)
+                def late(m):
+                    item = self.deferred[int(m.group(1))]
+                    if item[0] == "T" and self._top is not None and all(isinstance(x, int) for x in item[1][0]) \
+                            and render(item[1][0]).strip() == self._top:
+                        # expanded while the body of the same template is being scanned: taken for a loop
+                        return '<strong class="error">Template loop detected: [[:Template:%s]]</strong>' % self._top
+                    saved = self._top
+                    self._top = None
+                    try:
+                        return self.ev([item], None, depth, False)
+                    finally:
+                        self._top = saved
+                v = re.sub("\1(\\d+)\1", late, v)
             return v[:-1] if self.kludge and v.endswith("\n") else v
         if len(args) >= 2:
             return self.ev(args[1], env, depth, in_body)
@@ -319,7 +336,12 @@ class Ref:
         return "\n" + t if t.startswith(("*", ";", ":", "#", "{|")) else t
 
     def argtext(self, a, env, depth, in_body):
-        v = self.ev(a, env, depth, in_body)
+        saved = self._top
+        self._top = None
+        try:
+            v = self.ev(a, env, depth, in_body)
+        finally:
+            self._top = saved
         if self.kludge and in_body and v.endswith("\n"):
             v = v[:-1]
         return v
@@ -378,7 +400,12 @@ class Ref:
             if body is None:
                 t = "[[:Template:" + name + "]]"
             else:
-                t = self.ev(body, ht, depth + 1, True, ea=self.cur_ea)
+                saved_top = self._top
+                self._top = name.strip()
+                try:
+                    t = self.ev(body, ht, depth + 1, True, ea=self.cur_ea)
+                finally:
+                    self._top = saved_top
         t = self.nl(t)
         if self.pfn is not None and t:
             self.log.append(["p", name, [[k, v] for k, v in ht.items()], t])
@@ -391,6 +418,18 @@ class Ref:
         num = 1
         for a in args[1:]:
             sp = self.split_named(a)
+            if sp is None and self.resplit and env is not None:
+                # substitute plain parameter values first, then look for '=' again
+                a2 = []
+                for it in a:
+                    if not isinstance(it, int) and it[0] == "A" and all(isinstance(x, int) for x in it[1][0]):
+                        k = canon_key(render(it[1][0]))
+                        val = env.get(k)
+                        if isinstance(val, str) and "\0" not in val and "\1" not in val:
+                            a2 += [ord(ch) for ch in (val[:-1] if self.kludge and val.endswith("\n") else val)]
+                            continue
+                    a2.append(it)
+                sp = self.split_named(a2)
             if sp is not None:
                 k, v = sp
                 kk = canon_key(self.ev(k, env, depth, in_body)) if not self.is_pos_num(k) else int(render(k).strip())
